@@ -407,10 +407,24 @@ def _check_call(ctx, prog, ci, f, c, unknown, given, given_param, retry=False):
     func = _kw(c, "func", 0)
     res = prog.lookup_method(ci, func.attr) if is_self_attr(func) else None
     where = "%s.%s" % (ci.name, f.name)
+    rp = None
+    if res is None and isinstance(func, ast.Lambda) and isinstance(func.body, ast.Call) and is_self_attr(func.body.func) and \
+            not func.body.keywords and len(func.args.args) == len(func.body.args) == 2 and \
+            all(isinstance(a, ast.Name) for a in func.body.args):
+        # `lambda load, stress: self._stress_implicit(stress, load)`: the forward residual with the roles swapped at the call site;
+        # the lambda's parameters, named by the residual parameters they are bound to, are what the solver varies / is given
+        res = prog.lookup_method(ci, func.body.func.attr)
+        if res is not None:
+            resp = [p for p in res.params if p != "self"]
+            bound = {a.id: resp[i] for i, a in enumerate(func.body.args) if i < len(resp)}
+            lam = [a.arg for a in func.args.args]
+            if set(lam) == set(bound):
+                rp = [bound[p] for p in lam]
     if res is None:
         ctx.violated(f, c, "%s: solver residual %s is not a method of the law" % (where, norm_text(func)), rule="R-C06-1")
         return
-    rp = [p for p in res.params if p != "self"]
+    if rp is None:
+        rp = [p for p in res.params if p != "self"]
     args = _kw(c, "args", 3)
     x0 = _kw(c, "x0", 1)
     problems = []
@@ -427,7 +441,7 @@ def _check_call(ctx, prog, ci, f, c, unknown, given, given_param, retry=False):
     fp = _kw(c, "fprime", 2)
     if fp is not None:
         d = prog.lookup_method(ci, fp.attr) if is_self_attr(fp) else None
-        if d is None or [p for p in d.params if p != "self"] != rp or res.name.strip("_") not in d.name:
+        if d is None or [p for p in d.params if p != "self"] != rp or (res.name.strip("_") not in d.name and not isinstance(func, ast.Lambda)):
             problems.append("derivative %s does not belong to residual %s" % (norm_text(fp), res.name))
     if problems:
         ctx.violated(f, c, "%s: %s" % (where, "; ".join(problems)), rule="R-C06-1")
@@ -452,6 +466,16 @@ def _inverse(ctx):
         for back, fwd in (("_load_implicit", "_stress_implicit"), ("_load_secondary_implicit", "_stress_secondary_implicit")):
             f = prog.lookup_method(ci, back)
             g = prog.lookup_method(ci, fwd)
+            if f is None and g is not None:
+                # no wrapper method: the roles are swapped where the solver is called (`func=lambda L, s: self.<fwd>(s, L)`)
+                direction = {"_load_implicit": "load", "_load_secondary_implicit": "load_secondary_branch"}[back]
+                m_ = prog.lookup_method(ci, direction)
+                gp_ = [p for p in g.params if p != "self"]
+                lam = [n_ for n_ in ast.walk(m_.node) if isinstance(n_, ast.Lambda) and isinstance(n_.body, ast.Call) and
+                       is_self_attr(n_.body.func, fwd)] if m_ is not None else []
+                if lam and [a.arg for a in lam[0].args.args] == [norm_text(x) for x in reversed(lam[0].body.args)] and len(gp_) == 2:
+                    ctx.holds(m_, lam[0], "%s.%s solves %s with the roles of the two quantities swapped at the call site" % (ci.name, direction, fwd))
+                    continue
             if f is None or g is None:
                 raise AnalysisError("%s: residual pair %s/%s missing" % (ci.name, back, fwd))
             r = [s for s in f.node.body if isinstance(s, ast.Return)]
